@@ -2766,6 +2766,11 @@ class ReportDTCExtDataRecordByDTCNumberResponse(
     @classmethod
     def _from_pdu(cls, pdu: bytes) -> Self:
         dtc_and_status_record = pdu[2:6]
+
+        # The record number and the record are only present if there is a record to report
+        if len(pdu) == 6:
+            return cls(dtc_and_status_record, {})
+
         dtc_ext_data_record_number = pdu[6]
         dtc_ext_data_record = pdu[7:]
         return cls(dtc_and_status_record, {dtc_ext_data_record_number: dtc_ext_data_record})
